@@ -19,6 +19,7 @@ the ledger's, height windows).  Tied to the real `chain.Manager` and `coreutils.
 `harness/c05` (pool contents after every step; every mined block).
 -/
 import Verif.Lemmas.PoolHistory
+import Verif.Lemmas.PoolWeight
 
 namespace Verif.C05
 open Verif.Pool
@@ -170,6 +171,27 @@ theorem mine_valid (cfg : Cfg) (S : Nat → Bool × List Nat × List Nat) (l : L
   obtain ⟨p1, p2, p3⟩ := mine_prefix cfg (seen cfg (reach cfg l ops))
   have := pool_prefix_valid cfg S l ops h _ _ p1 p2 p3
   exact ⟨this.1, this.2, mine_weight_le cfg _ hf⟩
+
+/-! ### the weight counter (what decides eviction) -/
+
+/-- **the pool's weight is the weight of what is pooled**, in every reachable state as every entry
+point sees it — whatever was submitted how often: transactions skipped as already known, rejected
+sets, rolled back sets and tip changes leave no trace in the counter.  (No hypothesis on ids.) -/
+theorem pool_weight_exact (cfg : Cfg) (l : Ledger) (ops : List Op) :
+    (seen cfg (reach cfg l ops)).weight =
+      sumW ((seen cfg (reach cfg l ops)).txns ++ (seen cfg (reach cfg l ops)).v2txns) :=
+  revalidate_weight cfg _ (run_winv cfg ops _ (fun hc => by simp [Pool.init] at hc))
+
+/-- hence nothing is evicted for low fees unless the pooled transactions themselves weigh ten
+blocks: below that, a further entry point reports exactly the same pool -/
+theorem eviction_only_when_full (cfg : Cfg) (l : Ledger) (ops : List Op)
+    (h : sumW ((seen cfg (reach cfg l ops)).txns ++ (seen cfg (reach cfg l ops)).v2txns) < cfg.maxWeight * 10) :
+    seen cfg (seen cfg (reach cfg l ops)) = seen cfg (reach cfg l ops) := by
+  have hw := pool_weight_exact cfg l ops
+  have hms : (seen cfg (reach cfg l ops)).ms.isSome = true := revalidate_ms cfg _
+  show revalidate cfg (seen cfg (reach cfg l ops)) = seen cfg (reach cfg l ops)
+  unfold revalidate
+  rw [if_pos (by rw [hms, hw]; simpa using h)]
 
 /-! ### retention
 
